@@ -254,6 +254,7 @@ class Evaluator(object):
         self.trace_calls = []
         self.panics = []  # reachable explicit panic calls
         self.fmt_calls = []  # formatting sinks reached (C17)
+        self.fmt_followed = []
 
     # -------------------------------------------------------------- types
     def ty(self, i):
@@ -717,6 +718,14 @@ class Evaluator(object):
             raise Unsupported("unop %s" % rv[1])
         if k == "cast":
             v = self.operand(st, fr, rv[2])
+            if len(rv) > 4 and "vtable" in rv[4] and isinstance(v, Ref):
+                inner = v
+                for _ in range(rv[4].get("peeled", 0)):
+                    nxt = self.load(st, inner)
+                    if not isinstance(nxt, Ref):
+                        break
+                    inner = nxt
+                return PrimV("dyn", (inner, rv[4]["vtable"], rv[4]["dyn_trait"], v))
             return self.cast(st, fr, rv[1], v, self.operand_ty(fr, rv[2]), rv[3])
         if k == "ref" or k == "raw":
             r, ty = self.resolve(st, fr, rv[2])
